@@ -230,6 +230,7 @@ type linkKey struct {
 	cpol, spol string
 	up         bool           // which pair of endpoint addresses
 	sa, ca     netip.AddrPort // live sockets: the server's and the client's real addresses (zero: the documentation addresses)
+	n          int            // which client session on the link (every session has its own packer and unpacker)
 }
 
 type world struct {
